@@ -25,6 +25,19 @@ Theorem C18_chunking_independent :
 Proof. exact chunking_independent. Qed.
 Print Assumptions C18_chunking_independent.
 
+(* the entry path LangChain uses - on_chat_model_start (chat models), on_llm_new_token per token,
+   on_llm_end - with or without the empty first token some providers send (the one token
+   on_llm_new_token drops): the same, for every chunking into non-empty tokens.  An empty token
+   anywhere else is NOT covered: push_chunk reads it as the end-of-stream marker. *)
+Theorem C18_chunking_independent_callback :
+  forall (A : Type) (eqb : A -> A -> bool), (forall a b, eqb a b = true <-> a = b) ->
+  forall (cfg : config A) (chat : bool) (lead chunks : list (list A)),
+    (lead = [] \/ lead = [[]]) -> Forall (fun x => x <> []) chunks ->
+    concat (delivered (s_queue (run_tokens eqb cfg chat (lead ++ chunks)))) = spec eqb cfg (concat chunks) /\
+    s_completion (run_tokens eqb cfg chat (lead ++ chunks)) = spec eqb cfg (concat chunks).
+Proof. exact chunking_independent_callback. Qed.
+Print Assumptions C18_chunking_independent_callback.
+
 (* the same when the end is signalled by push_chunk("") or push_chunk(None), for texts that start
    with the configured prefix (or when no prefix is configured) *)
 Theorem C18_chunking_independent_push_end :
